@@ -208,6 +208,9 @@ func doLoad(st kjob.Step, idx int) kjob.Event {
 				ev.Panic = fmt.Sprint(x)
 			}
 		}()
+		if st.Filter.PreNNP {
+			seccomp.SetNoNewPrivs()
+		}
 		err = seccomp.LoadFilter(f)
 	}()
 	ev.Nil = err == nil && ev.Panic == ""
@@ -304,7 +307,22 @@ func startThread(state string) *thread {
 func call(t *thread, st kjob.Step, idx int) kjob.Event {
 	c := cmd{step: st, index: idx, reply: make(chan kjob.Event, 1)}
 	t.ch <- c
-	return <-c.reply
+	// a command thread that was put into strict mode (or otherwise killed by the operation) never answers: say so
+	// instead of hanging until the harness gives up
+	tid := int(atomic.LoadInt32(&t.tid))
+	for waited := 0; ; waited++ {
+		select {
+		case ev := <-c.reply:
+			return ev
+		case <-time.After(500 * time.Millisecond):
+			if _, err := os.Stat(fmt.Sprintf("/proc/self/task/%d", tid)); err != nil && waited >= 1 {
+				return kjob.Event{Step: idx, Ev: "thread-died", Tid: tid, Err: "the command thread no longer exists after " + st.Op}
+			}
+			if waited > 240 {
+				return kjob.Event{Step: idx, Ev: "thread-died", Tid: tid, Err: "no answer from the command thread after " + st.Op}
+			}
+		}
+	}
 }
 
 // ---- C10: threads in a state while the load runs ----
@@ -417,6 +435,41 @@ func allStatus() []kjob.ThreadStatus {
 }
 
 var stopSpinners int32
+
+// installEinvalLogFilter: in every thread, seccomp(SECCOMP_SET_MODE_FILTER, flags, ...) with the log bit in flags is
+// answered EINVAL (a kernel before 4.14 or a sandbox that does not know the flag); everything else is allowed.
+func installEinvalLogFilter() string {
+	res := make(chan string, 1)
+	go func() {
+		runtime.LockOSThread()
+		defer runtime.UnlockOSThread()
+		nr := uint32(317)
+		if runtime.GOARCH == "386" {
+			nr = 354
+		}
+		prog := []syscall.SockFilter{
+			{Code: 0x20, K: 0},                // ld [0]
+			{Code: 0x15, Jt: 0, Jf: 5, K: nr}, // jeq #seccomp
+			{Code: 0x20, K: 16},               // ld [16] (operation)
+			{Code: 0x15, Jt: 0, Jf: 3, K: 1},  // jeq #SECCOMP_SET_MODE_FILTER
+			{Code: 0x20, K: 24},               // ld [24] (flags, low word)
+			{Code: 0x45, Jt: 0, Jf: 1, K: 2},  // jset #SECCOMP_FILTER_FLAG_LOG
+			{Code: 0x06, K: 0x00050000 | 22},  // ret ERRNO|EINVAL
+			{Code: 0x06, K: 0x7fff0000},       // ret ALLOW
+		}
+		fp := syscall.SockFprog{Len: uint16(len(prog)), Filter: &prog[0]}
+		if _, _, e := syscall.RawSyscall6(syscall.SYS_PRCTL, 38, 1, 0, 0, 0, 0); e != 0 {
+			res <- "prctl: " + e.Error()
+			return
+		}
+		if r, _, e := syscall.RawSyscall(uintptr(nr), 1, 1, uintptr(unsafe.Pointer(&fp))); e != 0 || r != 0 {
+			res <- fmt.Sprintf("seccomp: ret %d errno %v", r, e)
+			return
+		}
+		res <- ""
+	}()
+	return <-res
+}
 
 func installEnosysFilter() string {
 	res := make(chan string, 1)
@@ -583,6 +636,8 @@ func run(job *kjob.Job) {
 				ev.Idx = st.Thread
 				emit(ev)
 			}
+		case "outer-einval-log":
+			emit(kjob.Event{Step: i, Ev: "outer-einval-log", Err: installEinvalLogFilter()})
 		case "outer-enosys":
 			// fault injection: from now on seccomp(2) fails with ENOSYS in every thread (an outer
 			// sandbox or an old kernel), everything else is allowed
